@@ -329,8 +329,8 @@ class Sym:
             o = Sym(z3.IntVal(int(o)))
         if not isinstance(o, Sym) or _is_real(s.t) or _is_real(o.t):
             raise NotEncodable("bit operation")
-        hi, lo = (s, o) if s.shift is not None else (o, s)
-        if hi.shift is None:
+        hi, lo = (s, o) if (s.shift or 0) >= (o.shift or 0) else (o, s)
+        if not hi.shift:
             raise NotEncodable("xor/or of unbounded integers that are not a shifted lane")
         k = hi.shift
         if not ENGINE.must_hold(z3.And(lo.t >= 0, lo.t < (1 << k), hi.t >= 0)):
